@@ -392,10 +392,12 @@ package sqlittle
 //@ extern strconv.ParseInt
 //@   pure
 //@   ensures base == 10 && bitSize == 64 ==> (err == nil <==> parse_int_ok(s)) && (err == nil ==> r0 == parse_int(s))
+//@   ensures [ascii] err == nil ==> len(s) > 0 && s[0] < 128
 
 //@ extern strconv.ParseFloat
 //@   pure
 //@   ensures bitSize == 64 ==> (err == nil <==> parse_float_ok(s)) && (err == nil ==> r0 == parse_float(s))
+//@   ensures [ascii] err == nil ==> len(s) > 0 && s[0] < 128
 
 //@ extern strconv.FormatInt
 //@   pure
